@@ -144,6 +144,16 @@ theorem admits_asdict : ∀ (τ : Ty) (j v : PV), wf τ = true → isJson j = tr
     | floatBool b => exact .floatConv _
   | .str, j, v, _, _, h => by cases h; exact .str _
   | .bool, j, v, _, _, h => by cases h; exact .bool _
+  | .listAny, j, v, _, hj, h => by
+    cases h; rw [asdict_of_isJson _ hj]; exact .listAny _
+  | .tupleAny, j, v, _, hj, h => by
+    cases h with
+    | tupleAnyL xs =>
+      simp only [isJson] at hj
+      simp only [asdict, asdictL_of_isJsonL xs hj]; exact .tupleAnyT xs
+    | tupleAnyT xs => simp [isJson] at hj
+  | .dictAny, j, v, _, hj, h => by
+    cases h; rw [asdict_of_isJson _ hj]; exact .dictAny _
   | .list t, j, v, hw, hj, h => by
     cases h with
     | list hl =>
@@ -252,6 +262,9 @@ theorem admits_self : ∀ (τ : Ty) (j v : PV), wf τ = true → isJson j = true
     | floatBool b => exact .floatConv _
   | .str, j, v, _, _, h => by cases h; exact .str _
   | .bool, j, v, _, _, h => by cases h; exact .bool _
+  | .listAny, j, v, _, _, h => by cases h; exact .listAny _
+  | .tupleAny, j, v, _, _, h => by cases h <;> exact .tupleAnyT _
+  | .dictAny, j, v, _, _, h => by cases h; exact .dictAny _
   | .list t, j, v, hw, hj, h => by
     cases h with
     | list hl =>
